@@ -1230,7 +1230,7 @@ func (s *seq) run() {
 func run(c *vf.Ctx) {
 	g := gitx.New(c.Scratch)
 	pools := map[string]*pool{"sha1": buildTemplate(c, g, "sha1"), "sha256": buildTemplate(c, g, "sha256")}
-	nSeq := c.N(150, 2000)
+	nSeq := c.N(150, 900)
 	vf.Parallel(nSeq, 6, func(i int) {
 		r := c.Rand("seq", i)
 		f := feat{
